@@ -15,8 +15,8 @@ content `t` of the target, every order the datastore lists/streams the entries i
   (after 2096d62: no Commit when nothing was added) behaves as the raft manager on every stream.
 Rotation: `rotate_spec` (every retention ≥ 1, every pre-existing folder set, every
 operation sequence, every observation window), `never_more_than_n`.
-Peerstore: `peerstore_roundtrip`, `bad_lines_skipped_partial` (files without a line of 64 KiB or
-more; `bad_lines_skipped_full_fails`: known finding K19).
+Peerstore: `peerstore_roundtrip`, `bad_lines_skipped` (every file; the 64 KiB limit, former finding
+K19, was removed from the code by 610b52a).
 -/
 set_option linter.unusedSimpArgs false
 namespace CV.C14
@@ -204,32 +204,25 @@ theorem peerstore_roundtrip (i : PSInput) (P : List (Nat × List Nat)) (univ : L
 example : peerInfosAllowed { self := 0, known := [⟨1, some 5, [6, 1]⟩, ⟨2, none, [7, 5]⟩, ⟨3, some 5, []⟩], peers := [3, 1, 0, 2] }
     [(2, [5, 7]), (1, [1])] = true := by decide
 
-/-- unparsable lines are skipped, for every file -/
-def bad_lines_skipped_full : Prop := ∀ file : List Line, load file = file.filter Line.loads
-
-/-- `LoadPeerstore` returns exactly the lines that parse, in file order: a line that does not
-    (whether or not it starts with '/') changes nothing else and is never returned — for every
-    file without a line of 64 KiB or more. -/
-theorem bad_lines_skipped_partial (file : List Line) (hl : ∀ l ∈ file, l ≠ Line.long) :
+/-- `LoadPeerstore` returns exactly the lines that parse, in file order, for EVERY file: a line
+    that does not parse (whether or not it starts with '/', whatever its length — 610b52a removed
+    the 64 KiB limit that made this partial) is never returned, and removing or inserting such a
+    line changes nothing else. -/
+theorem bad_lines_skipped (file : List Line) :
     load file = file.filter Line.loads ∧
     (∀ l ∈ load file, l.loads = true) ∧
+    (∀ (a b : List Line) (bad : Line), bad.loads = false → load (a ++ bad :: b) = load a ++ load b) ∧
     (∀ self order, (fileClauses self file { loaded := (load file).map some, order := order, panic := false }).head? =
         some ("bad_lines_skipped", true)) := by
-  have h := load_of_no_long hl
-  refine ⟨h, ?_, ?_⟩
-  · intro l hl'
-    rw [h] at hl'
-    exact (List.mem_filter.1 hl').2
+  refine ⟨rfl, ?_, ?_, ?_⟩
+  · intro l hl
+    exact (List.mem_filter.1 hl).2
+  · intro a b bad hb
+    simp [load, List.filter_append, hb]
   · intro self order
-    simp [fileClauses, h]
+    simp [fileClauses, load]
 
-/-- the code really violates the full statement: an over-long line ends the reading and the
-    valid address after it is lost (known finding K19) -/
-theorem bad_lines_skipped_full_fails : ¬ bad_lines_skipped_full := by
-  intro h
-  have := h [.long, .full 0 1]
-  revert this
-  decide
+example : load [.long, .full 0 1, .slashBad 3, .noSlash 0, .empty, .bare 2] = [.full 0 1, .bare 2] := by decide
 
 /-! ## Prop-level readings of the Bool checkers -/
 
